@@ -77,6 +77,17 @@ pub(crate) fn point(label: &'static str) {
     }
 }
 
+/// A scheduling point taken when the guard goes out of scope (i.e. *after* the step the function
+/// it lives in performs), so that a controlled scheduler can also switch threads between that step
+/// and whatever the caller does next.
+pub(crate) struct PointAfter(pub(crate) &'static str);
+
+impl Drop for PointAfter {
+    fn drop(&mut self) {
+        point(self.0)
+    }
+}
+
 pub(crate) fn batch_limit(which: &'static str, default: usize) -> usize {
     match current() {
         Some(h) => h.batch_limit(which, default),
